@@ -90,7 +90,11 @@ func (w *World) ScriptedEpochFn(cfg *config.Config) func(height uint64, appState
 			shortCnt := uint32(rng.Intn(7))
 			shortScore := scoreGrid[rng.Intn(len(scoreGrid))]
 			longScore := scoreGrid[rng.Intn(len(scoreGrid))]
-			if rng.Intn(3) == 0 { // a well-behaved participant
+			pct := w.P.WellBehaved
+			if pct == 0 {
+				pct = 33
+			}
+			if rng.Intn(100) < pct { // a well-behaved participant
 				missed, noQualShort, noQualLong, shortCnt, shortScore, longScore = false, false, false, 6, 1, 1
 			}
 			if !state.IsCeremonyCandidate(it.id) {
